@@ -99,6 +99,18 @@ def handleG (x : Bool) (op : String) (args : List String) : Option String :=
         boolStr (p == q) ++ "\t" ++ boolStr (p.hashKey == q.hashKey) ++ "\t" ++ gPyBool (p.allows q)
     | .error e, _ => "perr\t" ++ e.name
     | _, .error e => "perr\t" ++ e.name
+  | "all", a :: b :: probes =>
+    -- intersect, union, invert(a) reports (5 fields each) followed by the 5 predicate fields
+    some <| match evalOperand x a, evalOperand x b with
+    | .ok p, .ok q =>
+      let rep (r : PyM GC) : String := match r with
+        | .ok c => "ok\t" ++ gReport x c probes
+        | .error e => "err\t" ++ e.name ++ "\t-\t-\t-"
+      "ok\t" ++ rep (p.intersect q) ++ "\t" ++ rep (p.unionWith q) ++ "\t" ++ rep p.invert ++ "\t" ++
+        boolStr (p.allowsAll q) ++ "\t" ++ boolStr (p.allowsAny q) ++ "\t" ++
+        boolStr (p == q) ++ "\t" ++ boolStr (p.hashKey == q.hashKey) ++ "\t" ++ gPyBool (p.allows q)
+    | .error e, _ => "perr\t" ++ e.name
+    | _, .error e => "perr\t" ++ e.name
   | _, _ => none
 
 /-- handler of this area: `none` = op not mine -/
